@@ -23,7 +23,8 @@ def bounds(tier):
     return {"symbolic outputs": ("one output of every label-list class, and two outputs of the same class, symbolic over "
                                  "every label and out-of-range byte" if tier == "quick" else
                                  "additionally every pair of classes and three outputs of the largest class") +
-                                "; remaining outputs not connected",
+                                "; plus, on one table pair per platform, three outputs of the largest class over the "
+                                "labels NA/P1*/P2*; remaining outputs not connected",
             "tables": ("every cfg with one log and every log with one cfg per platform" if tier == "quick"
                        else "all 895 cfg x log pairs grouped by inventory-relevant table signature"),
             "block": "bytes of the symbolic outputs fully symbolic; all other bytes zero (the inventory rule reads only "
@@ -114,7 +115,7 @@ def _selections(cfg_acc, output_keys, k):
     return sels or [[]]
 
 
-def inventory(plat, c, l, k, flavour):
+def inventory(plat, c, l, k, flavour, triple=False):
     def scenario(sx):
         from geckolib.const import GeckoConstants
         items = [0] * 1024
@@ -123,13 +124,27 @@ def inventory(plat, c, l, k, flavour):
         else:
             spa = fe.SyncSpa(plat, c, l, b"\x00" * 1024)
         acc = spa.accessors
-        outs = list(spa.struct.all_outputs)
-        sels = _selections(acc, outs, k)
-        chosen = sels[sx.choice("selection", len(sels))]
+        # the wiring is read from the table's own key lists, not from what the structure made of them
+        outs = list(spa.config_class.output_keys)
+        all_devices = list(spa.log_class.all_device_keys)
+        user_demands = list(spa.log_class.user_demand_keys)
+        if triple:
+            # three outputs of the largest class over the labels of the first two pumps (and NA): a device named by
+            # two outputs with another wired device between them, in every order
+            from sx.core import Or
+            chosen = max(_out_classes(acc, outs), key=len)[:3]
+        else:
+            sels = _selections(acc, outs, k)
+            chosen = sels[sx.choice("selection", len(sels))]
         for o in outs:
             a = acc[o]
             if o in chosen:
                 sym = sx.bytes_(f"out_{o}", a.length)
+                if triple:
+                    few = [i for i, lab in enumerate(a.items) if lab == "NA" or lab[:2] in ("P1", "P2")]
+                    sx.assume(Or(*[sym[a.length - 1] == i for i in few]))
+                    for j in range(a.length - 1):
+                        sx.assume(sym[j] == 0)
                 for j in range(a.length):
                     items[a.pos + j] = sym[j]
                 continue
@@ -151,7 +166,7 @@ def inventory(plat, c, l, k, flavour):
             else:
                 labels.append("Unknown")      # one path for every out-of-range byte
         sx.observe("labels", list(labels))
-        exp = fe.expected_devices(labels, spa.struct.all_devices, spa.struct.user_demands, GeckoConstants.DEVICES)
+        exp = fe.expected_devices(labels, all_devices, user_demands, GeckoConstants.DEVICES)
         D = GeckoConstants.DEVICES
         exp_p = [d for d in exp if D[d][3] == "PUMP"]
         exp_b = [d for d in exp if D[d][3] == "BLOWER"]
@@ -161,7 +176,7 @@ def inventory(plat, c, l, k, flavour):
         sx.check(got[0] == exp_p, "inv.pumps", lambda: f"{got[0]} expected {exp_p} for wiring {labels}")
         sx.check(got[1] == exp_b, "inv.blowers", lambda: f"{got[1]} expected {exp_b}")
         sx.check(got[2] == exp_l, "inv.lights", lambda: f"{got[2]} expected {exp_l}")
-        uds = {u.upper(): u for u in spa.struct.user_demands}
+        uds = {u.upper(): u for u in user_demands}
         for p in f.pumps:
             ud = uds["UD" + p.key.upper()]
             sx.check(p._user_demand["demand"] == ud and p.modes == acc[ud].items, "inv.pump-demand-and-modes")
@@ -216,3 +231,14 @@ def units(tier):
         for flavour in ("async", "sync"):
             yield Unit(f"inventory.{flavour}.{plat}-{c}-{l}", inventory(plat, c, l, k, flavour), max_paths=200000,
                        max_fanout=400)
+    last = {}
+    for plat, c, l in selection(tier):
+        last[plat] = (plat, c, l)
+    for plat, c, l in sorted(last.values()):
+        P, C, L = fe.tables(plat, c, l)
+        cc = C(type("S", (), {"status_block": bytes(1024), "accessors": {}})())
+        if not cc.output_keys or len(max(_out_classes(cc.accessors, cc.output_keys), key=len)) < 3:
+            continue
+        for flavour in ("async", "sync"):
+            yield Unit(f"inventory-triple.{flavour}.{plat}-{c}-{l}", inventory(plat, c, l, k, flavour, triple=True),
+                       max_paths=200000, max_fanout=400)
